@@ -70,7 +70,8 @@ CssFrags == <<
   F("zidx", {}), F("media", {"Precision"}), F("color", {}) >>
 SvgFrags == <<
   F("rect", {"Precision"}), F("circle", {"Precision"}), F("cmt", {"KeepComments"}),
-  F("gcmt", {"KeepComments", "Precision"}), F("unit", {"Precision"}), F("text", {}) >>
+  F("gcmt", {"KeepComments", "Precision"}), F("unit", {"Precision"}), F("text", {}),
+  F("vb", {"Precision"}), F("poly", {"Precision"}) >>
 JsFrags == <<
   F("nullish", {"Version"}), F("optchain", {"Version"}), F("catch", {"Version", "KeepVarNames"}),
   F("tmpl", {"Version"}), F("fn", {"KeepVarNames"}), F("closure", {"KeepVarNames"}), F("hoist", {"KeepVarNames"}),
